@@ -1,3 +1,6 @@
 pub mod mapper_graph;
 pub mod wire;
 pub mod listing;
+pub mod loader;
+pub mod escape;
+pub mod loop_script;
